@@ -1,10 +1,12 @@
 // harness for gmlc::concurrency::DelayedDestructor<Probe> and DelayedDestructorSingleThread<Probe> (C16, C20)
 // params: cb=0|1 (callback installed) reenter=0|1|2 (destructor / callback calls size()) locked=0|1 rev=0|1
+#include "cell.hpp"
 #include "gmlc/concurrency/DelayedDestructor.hpp"
 using namespace gmlc::concurrency;
 
 struct Ctx {
     std::function<void()> reenter;  // what user code calls back into
+    int cbthrow = 0, throwsLeft = 0;
     int mode = 0;                   // 1: destructor re-enters, 2: callback re-enters
 };
 static Ctx* g_ctx = nullptr;
@@ -37,9 +39,17 @@ static void run_dd(vrt::Exec& x)
     static Ctx ctx;
     ctx = Ctx();
     ctx.mode = (int)x.param("reenter", 0);
+    ctx.cbthrow = (int)x.param("cbthrow", 0);
+    ctx.throwsLeft = (int)x.param("cbthrows", 2);
     g_ctx = &ctx;
     DD* D = cbOn ? x.make<DD>("dd", std::function<void(std::shared_ptr<Probe>&)>([](std::shared_ptr<Probe>& p) {
-        vrt::simple_point("cb");
+        // the callback is user code: it may throw (param cbthrow: 1 = a std::exception, 2 = something else), at most cbthrows times
+        if (g_ctx->cbthrow != 0 && vrt::step_may_throw("cb", g_ctx->throwsLeft)) {
+            vrt::log_ev("cbthrow", "obj", p ? p->id : 0);
+            if (g_ctx->cbthrow == 1) throw std::runtime_error("callback");
+            throw 42;
+        }
+        if (g_ctx->cbthrow == 0) vrt::simple_point("cb");
         vrt::log_ev("cb", "obj", p ? p->id : 0, 0, 0, holds_dl() ? 1 : 0);
         if (g_ctx->mode == 2 && g_ctx->reenter) g_ctx->reenter();
     }))
